@@ -348,6 +348,7 @@ contract(SC + '__setitem__', name='SessionCache.__setitem__[fresh id]',
 contract(SC + '__setitem__', name='SessionCache.__setitem__[any id]',
          params={'self': cache_obj(), 'sessionID': T.bytes(), 'session': T.opaque()}, setup=_setup,
          requires=_req, raises={}, ensures=lambda ns: S.And(_b(_set_stores(ns)), _b(_set_inv(ns))), prop='C18',
+         opts={'rlimit_scale': 0.05},     # known finding F5: fails by design on this tree, must fail quickly
          doc='the same for every id (property C18).  EXPECTED TO FAIL on the pinned tree: storing under an id that is '
              'already cached leaves two cells for one key (known finding cache-same-id-twice)')
 
